@@ -1,1 +1,4 @@
 import AmiscModel.Index
+import AmiscModel.Generated.Transforms
+import AmiscModel.Generated.Consts
+import AmiscModel.Generated.Facts
